@@ -94,6 +94,9 @@ class Printer:
         return ' '
 
     def maybe(self, s):
+        # redundant parentheses are not neutral for `tailstrict` (a parenthesised call is not in tail position)
+        if s.endswith('tailstrict'):
+            return s
         if self.rng is not None and self.extra > 0 and self.rng.random() < self.extra:
             return '(' + s + ')'
         return s
@@ -221,10 +224,12 @@ class Printer:
         if k == 'local':
             return 'local ' + self.binds(e[1]) + ';' + self.sp() + self.at(e[2], 0)
         if k == 'if':
-            s = 'if ' + self.at(e[1], 0) + ' then ' + self.at(e[2], 0)
             if e[3] is not None:
-                s += ' else ' + self.at(e[3], 0)
-            return s
+                t = self.at(e[2], 0)
+                if open_if(e[2]):
+                    t = '(' + t + ')'   # dangling else
+                return 'if ' + self.at(e[1], 0) + ' then ' + t + ' else ' + self.at(e[3], 0)
+            return 'if ' + self.at(e[1], 0) + ' then ' + self.at(e[2], 0)
         if k == 'binary':
             sym, p = BINOPS[e[1]]
             return self.at(e[2], p) + self.sp() + sym + self.sp() + self.at(e[3], p + 1)
@@ -252,6 +257,26 @@ class Printer:
         if k == 'std':
             return 'std.' + e[1] + '(' + ', '.join(self.at(a, 0) for a in e[2]) + ')'
         raise ValueError(k)
+
+
+def open_if(e):
+    """does the text of e end with an else-less `if` (which would capture a following `else`)?"""
+    k = e[0]
+    if k == 'if':
+        return e[3] is None and True or open_if(e[3])
+    if k == 'local':
+        return open_if(e[2])
+    if k == 'func':
+        return open_if(e[2])
+    if k == 'assert':
+        return open_if(e[3])
+    if k == 'error':
+        return open_if(e[1])
+    if k == 'binary':
+        return open_if(e[3])
+    if k == 'unary':
+        return open_if(e[2])
+    return False
 
 
 def to_jsonnet(e, rng=None, extra=0.0, ws=False):
